@@ -4,7 +4,7 @@
    Statements only; proofs in Proofs/HSFacts.v on Proofs/QMatFacts.v.
    A second, field-generic formalisation is in Abstract/HS_mathcomp.v. *)
 From Coq Require Import List ZArith Arith Bool QArith Qcanon.
-From MsmV Require Import Lib.Result Lib.PyList Lib.QMat Model.Ergodic Model.Peq Model.HS Proofs.QMatFacts Proofs.HSFacts.
+From MsmV Require Import Lib.Result Lib.PyList Lib.QMat Model.Ergodic Model.Peq Model.HS Proofs.QMatFacts Proofs.HSFacts Proofs.HSIdentity.
 Import ListNotations.
 Local Open Scope nat_scope.
 
@@ -40,6 +40,20 @@ Theorem aggregation_is_partition : forall nmacro aidx, (forall a, In a aidx -> a
   wf (length aidx) nmacro (aggregation nmacro aidx) /\ rows_sum_one (aggregation nmacro aidx).
 Proof. exact aggregation_rows. Qed.
 Print Assumptions aggregation_is_partition.
+
+(* when every macrostate holds exactly one microstate (the assignment is a permutation) the
+   lumped matrix is A^T T A: the microstate model itself in the order of the macrostate labels *)
+Theorem hs_identity_lumping_thm : forall n T pi aidx Z M2,
+  0 < n -> wf n n T -> length pi = n ->
+  length aidx = n -> NoDup aidx -> (forall a, In a aidx -> a < n) ->
+  wf n n Z -> wf n n M2 ->
+  mmul Z (msub (madd (identity n) (outer (ones n) pi)) T) = identity n ->
+  mmul M2 (mmul (transpose (aggregation n aidx)) (mmul (diag pi) (mmul Z (aggregation n aidx)))) = identity n ->
+  msub (madd (identity n) (outer (ones n) (vmul pi (aggregation n aidx))))
+       (mmul M2 (diag (vmul pi (aggregation n aidx))))
+  = mmul (transpose (aggregation n aidx)) (mmul T (aggregation n aidx)).
+Proof. exact hs_identity_lumping. Qed.
+Print Assumptions hs_identity_lumping_thm.
 
 (* a non-ergodic micro model is refused (TypeError) before projecting *)
 Theorem hs_refuses_nonergodic : forall l lag,
